@@ -72,6 +72,35 @@ def m_encode(I, st, recv, args, kwargs, fr, k):
     return k(st, Sym(mk_byt(s)))
 
 
+def r_items(I, st, recv, args, kwargs, fr, k):
+    return k(st, B.ItemsOf(recv))
+
+
+def r_dict_copy(I, st, recv, args, kwargs, fr, k):
+    """dict.copy() on a heap dict: a fresh dict object with the same membership/map arrays."""
+    t = recv.t
+    def ok(s2):
+        loc = get_loc(t)
+        new = I.alloc(s2, "builtins.dict")
+        s2.write(HAS, new, s2.read(HAS, loc))
+        s2.write(MAP, new, s2.read(MAP, loc))
+        s2.write(LEN, new, s2.read(LEN, loc))
+        return k(s2, Sym(mk_ref(new), hint="builtins.dict"))
+    return I.branch(st, I.w.isinstance_term(t, ["builtins.dict"]), ok, lambda s2: B.unsupported_path(I, s2, ".copy() on a non-dict"))
+
+
+def r_dict_get(I, st, recv, args, kwargs, fr, k):
+    t = recv.t
+    kt = B.as_sym(I, st, args[0]).t
+    default = args[1] if len(args) > 1 else Sym(NONE)
+    def ok(s2):
+        loc = get_loc(t)
+        has = z3.Select(s2.read(HAS, loc), kt)
+        val = z3.Select(s2.read(MAP, loc), kt)
+        return k(s2, Sym(z3.If(has, val, I.term(s2, default))))
+    return I.branch(st, I.w.isinstance_term(t, ["builtins.dict"]), ok, lambda s2: B.unsupported_path(I, s2, ".get() on a non-dict"))
+
+
 STR_METHODS = {"upper": m_upper, "lower": m_lower, "startswith": m_startswith, "endswith": m_endswith,
                "format": m_format}
-REF_METHODS = {}
+REF_METHODS = {"items": r_items, "copy": r_dict_copy, "get": r_dict_get}
